@@ -213,9 +213,9 @@ fn call(f: Func, args: &[Node], at: f64) -> R {
         Asin => approx_fn(q, vs[0].asin()),
         Acos => approx_fn(q, vs[0].acos()),
         Atan => approx_fn(q, vs[0].atan()),
-        Asinh => approx_fn(q, vs[0].asinh()),
-        Acosh => approx_fn(q, vs[0].acosh()),
-        Atanh => approx_fn(q, vs[0].atanh()),
+        Asinh => approx_fn(q, asinh_acc(vs[0])),
+        Acosh => approx_fn(q, acosh_acc(vs[0])),
+        Atanh => approx_fn(q, atanh_acc(vs[0])),
         Atan2 => approx_fn(q, vs[0].atan2(vs[1])),
         Ln => approx_fn(q, vs[0].ln()),
         Lb => approx_fn(q, vs[0].log2()),
@@ -279,4 +279,39 @@ fn call(f: Func, args: &[Node], at: f64) -> R {
         }
         Gcd | Lcm => RV::Unspec("not f64"),
     }
+}
+
+// Inverse hyperbolic functions written out from libm's ln / ln_1p / sqrt (the fdlibm formulas): Rust's own
+// f64::asinh / acosh / atanh are not libm functions and lose accuracy in places (atanh next to -1).
+pub fn atanh_acc(x: f64) -> f64 {
+    let a = x.abs();
+    if a.is_nan() || a > 1.0 {
+        return f64::NAN;
+    }
+    (0.5 * (2.0 * a / (1.0 - a)).ln_1p()).copysign(x)
+}
+
+pub fn asinh_acc(x: f64) -> f64 {
+    let a = x.abs();
+    let r = if a.is_nan() || a.is_infinite() {
+        a
+    } else if a > 1e150 {
+        a.ln() + std::f64::consts::LN_2
+    } else {
+        // ln(a + sqrt(a^2 + 1)) = ln_1p(a + a^2 / (1 + sqrt(a^2 + 1)))
+        (a + a * a / (1.0 + (a * a + 1.0).sqrt())).ln_1p()
+    };
+    r.copysign(x)
+}
+
+pub fn acosh_acc(x: f64) -> f64 {
+    if x.is_nan() || x < 1.0 {
+        return f64::NAN;
+    }
+    if x > 1e150 {
+        return x.ln() + std::f64::consts::LN_2;
+    }
+    // ln(x + sqrt(x^2 - 1)) with t = x - 1: ln_1p(t + sqrt(2t + t^2))
+    let t = x - 1.0;
+    (t + (2.0 * t + t * t).sqrt()).ln_1p()
 }
